@@ -31,6 +31,8 @@ pub struct Profile {
     pub min_rounds: usize,
     /// repeat the previous invocation unchanged this often (no-op rebuild checks)
     pub repeat_pct: usize,
+    /// sources that are symbolic links to files elsewhere
+    pub symlink_pct: usize,
 }
 
 pub const EDIT_NAMES: [&str; 14] = [
@@ -54,6 +56,7 @@ impl Default for Profile {
             explain_pct: 5,
             min_rounds: 1,
             repeat_pct: 15,
+            symlink_pct: 10,
         }
     }
 }
@@ -250,6 +253,32 @@ pub fn apply_edit(world: &mut World, t: &mut Tape, prof: &Profile) -> Option<Str
     };
     let plain_sources: Vec<String> = cur.sources.iter().filter(|s| *s != "gen.in" && *s != "sub.in").cloned().collect();
     match kind {
+        0 if c >= 1 << 15 && prof.gen.pools => {
+            // pools: change a declared depth, or move a command step into / out of a pool (never affects what is up to date)
+            let p = editable(world);
+            let d = if !p.pools.is_empty() && b >= 1 << 15 {
+                let i = pickn(a, p.pools.len());
+                let nd = pickn(b.wrapping_mul(7), 4);
+                if p.pools[i].1 == nd {
+                    return None;
+                }
+                p.pools[i].1 = nd;
+                format!("pool {} depth := {}", p.pools[i].0, nd)
+            } else {
+                let cmds: Vec<usize> = p.steps.iter().enumerate().filter(|(_, s)| !s.phony && !s.regen).map(|(i, _)| i).collect();
+                let i = *cmds.get(pickn(a, cmds.len()))?;
+                let mut choices: Vec<Option<String>> = vec![None, Some("console".to_string())];
+                choices.extend(p.pools.iter().map(|x| Some(x.0.clone())));
+                let np = choices[pickn(b.wrapping_mul(13), choices.len())].clone();
+                if p.steps[i].pool == np {
+                    return None;
+                }
+                p.steps[i].pool = np.clone();
+                format!("pool of step {} := {:?}", p.steps[i].uid, np)
+            };
+            manifest_edited(world);
+            Some(d)
+        }
         0 => {
             if a >= 1 << 15 && !cur.has_subgen() {
                 let st = 1 + pickn(b, 40) as u32;
@@ -876,8 +905,23 @@ pub fn run_history_x(case: &Case, prof: &Profile, dir: &Path, opts: &HistOpts) -
     let mut mt = Tape::new(&case.main);
     let proj = Proj::gen(&mut mt, &prof.gen);
     let mut world = World::new(proj);
+    let mut stats = Stats::default();
     // true include sets and initial sources
     for s in world.disk.sources.clone() {
+        if prof.symlink_pct > 0 && mt.chance(prof.symlink_pct) && s != "gen.in" && s != "sub.in" {
+            // the source is a symbolic link to a file elsewhere: n2 must see the target's timestamp
+            let target = format!(".targets/{}", s.replace('/', "_"));
+            std::fs::create_dir_all(".targets").unwrap();
+            std::fs::write(&target, "").unwrap();
+            if let Some(p) = Path::new(&s).parent() {
+                if !p.as_os_str().is_empty() {
+                    std::fs::create_dir_all(p).unwrap();
+                }
+            }
+            let abs = std::env::current_dir().unwrap().join(&target);
+            let _ = std::os::unix::fs::symlink(&abs, &s);
+            stats.classes.insert("symlinked-source".into());
+        }
         world.write_source(&s);
     }
     for s in world.disk.steps.clone() {
@@ -898,7 +942,6 @@ pub fn run_history_x(case: &Case, prof: &Profile, dir: &Path, opts: &HistOpts) -
     }
     world.write_manifest();
     let mut trace: Vec<Value> = vec![];
-    let mut stats = Stats::default();
     let mut viols: Vec<Viol> = vec![];
     let mut sched = OwnedTape::new(case.sched.clone());
     let mut prev_clean: Option<BTreeSet<usize>> = None;
